@@ -23,6 +23,17 @@ def fr(x):
     return x if isinstance(x, Fraction) else Fraction(x)
 
 
+def bad_answer(ctx, r, label, out, replay):
+    """a harness line that did not answer OK: crash / hang / exception -> violation (a line that was not run after a hang
+    is only counted).  Returns True when the case cannot be evaluated."""
+    if r.get('ok'):
+        return False
+    if not r.get('notrun'):
+        key = 'offset.hang' if str(out).startswith('HANG') else 'offset.crash-or-exception'
+        viol(ctx, key, '%s: harness answered %s' % (label, str(out)[:300]), replay=replay)
+    return True
+
+
 def viol(ctx, key, what, replay=None, nofail=False, per_key=2):
     """ctx.violation, but at most `per_key` records per classifier key: vf.Ctx keeps 50 violations in all, and one
     defect that fails hundreds of generated cases must not push the other keys out of the report.  All occurrences
@@ -34,6 +45,77 @@ def viol(ctx, key, what, replay=None, nofail=False, per_key=2):
     return False
 
 
+# ----------------------------------------------------------------------------- running a harness that may crash or hang
+NOTRUN = 'NOTRUN'
+
+
+def run_robust(runner, lines, prefix=None, jobs=None, timeout=60, iso_timeout=10, budget=None, max_stops=25):
+    """Feed `lines` to a line-in/line-out harness in parallel shards; `runner(input_lines, timeout)` starts one process
+    (vf.run_lines result: stdout, returncode, stderr, timed_out).  The harness flushes after every line, so when a process
+    dies or exceeds `timeout` the line it was working on is known.  That line is then run ALONE with `iso_timeout`:
+      * it answers            -> the shard was only slow (machine load) or the failure needs the lines before it: answer kept;
+      * it dies               -> 'CRASH';        * it exceeds iso_timeout -> 'HANG'.
+    After a HANG (or `max_stops` crashes) the rest of the shard is not run ('NOTRUN'): a check must stay bounded on a tree
+    whose library hangs.  `budget` (seconds) bounds the whole call.  Returns (outs, failures[(line, rc, stderr, kind)])."""
+    import concurrent.futures as cf
+    jobs = jobs or vf.NPROC
+    n = len(lines)
+    if n == 0:
+        return [], []
+    chunk = max(1, (n + jobs - 1) // jobs)
+    shards = [lines[i:i + chunk] for i in range(0, n, chunk)]
+    deadline = (time.time() + budget) if budget else None
+    pre = [prefix] if prefix else []
+
+    def answers(p, want):
+        o = p.stdout.split('\n')
+        if o and o[-1] == '':
+            o.pop()
+        if prefix:
+            o = o[1:]
+        return o[:want]
+
+    def work(i):
+        todo, res, fl, stops = shards[i], [], [], 0
+        while todo:
+            t = timeout
+            if deadline is not None:
+                t = min(t, deadline - time.time())
+                if t < 1:
+                    res += [NOTRUN] * len(todo)
+                    break
+            p = runner(pre + todo, t)
+            o = answers(p, len(todo))
+            res += o
+            if len(o) == len(todo):
+                if p.returncode != 0 and not getattr(p, 'timed_out', False):
+                    fl.append(('<after last line>', p.returncode, (p.stderr or '')[-3000:], 'CRASH-AT-EXIT'))
+                break
+            bad = todo[len(o)]
+            q = runner(pre + [bad], iso_timeout)
+            qo = answers(q, 1)
+            todo = todo[len(o) + 1:]
+            if qo and qo[0]:
+                res.append(qo[0])              # answers when run alone
+                if q.returncode != 0:
+                    fl.append((bad, q.returncode, (q.stderr or '')[-3000:], 'CRASH-AT-EXIT'))
+                continue
+            kind = 'HANG' if getattr(q, 'timed_out', False) else 'CRASH'
+            fl.append((bad, q.returncode, (q.stderr or '')[-3000:], kind))
+            res.append(kind)
+            stops += 1
+            if kind == 'HANG' or stops >= max_stops:
+                res += [NOTRUN] * len(todo)
+                break
+        return i, res, fl
+    outs, fails = [None] * len(shards), []
+    with cf.ThreadPoolExecutor(max_workers=jobs) as ex:
+        for i, o, fl in ex.map(work, range(len(shards))):
+            outs[i] = o
+            fails += fl
+    return [l for o in outs for l in o], fails
+
+
 # ----------------------------------------------------------------------------- tools
 class Tools:
     def __init__(self, ctx, variants=('plain',)):
@@ -43,17 +125,28 @@ class Tools:
             self.exe[v] = vf.build_cpp(ctx, 'cx_offset.cpp', v)
         self.ora = vf.oracle_build('offset')
 
-    def H(self, lines, variant='plain', timeout=900):
-        """harness; a crash of a shard is isolated to single lines, which then answer 'CRASH <rc> <stderr tail>'"""
-        out, fails = vf.par_lines(self.exe[variant], lines, timeout=timeout)
-        if not fails:
-            return out
+    def H(self, lines, variant='plain', timeout=90):
+        """harness; a line on which the library crashes answers 'CRASH <rc> <stderr tail>', one on which it does not return
+        'HANG' (found by running the offending line alone); after a hang the rest of that shard answers NOTRUN and the
+        following calls use a short timeout, so that the check stays bounded on a tree whose library hangs"""
+        env = {'ASAN_OPTIONS': 'detect_leaks=1:abort_on_error=0', 'UBSAN_OPTIONS': 'print_stacktrace=1'} if variant.startswith('asan') else None
+        if getattr(self, 'hang_seen', False):
+            timeout = min(timeout, 20)
+        out, fails = run_robust(lambda inp, t: vf.run_lines(self.exe[variant], inp, timeout=t, env=env), lines, timeout=timeout, iso_timeout=10)
+        if any(f[3] == 'HANG' for f in fails):
+            self.hang_seen = True
+        info = dict((f[0], f) for f in fails)
         res = []
-        for l in lines:
-            res.append(self.H1(l, variant))
+        for l, o in zip(lines, out):
+            if o == 'CRASH' and l in info:
+                o = 'CRASH %s %s' % (info[l][1], ' '.join(info[l][2].split())[:1500])
+            res.append(o)
+        nr = sum(1 for o in res if o == NOTRUN)
+        if nr:
+            self.ctx.count('harness_lines_not_run_after_a_hang_or_crash', nr)
         return res
 
-    def H1(self, line, variant='plain', timeout=120):
+    def H1(self, line, variant='plain', timeout=60):
         env = {'ASAN_OPTIONS': 'detect_leaks=1:abort_on_error=0', 'UBSAN_OPTIONS': 'print_stacktrace=1'}
         p = vf.sh([self.exe[variant]], input=line + '\n', timeout=timeout, env=env)
         o = p.stdout.split('\n')
@@ -92,7 +185,7 @@ def exe_line(case, cmd='EXE'):
 def parse_exe(out):
     t = out.split()
     if not t or t[0] != 'OK':
-        return dict(ok=False, raw=out)
+        return dict(ok=False, raw=out, notrun=(out == NOTRUN))
     r = dict(ok=True, err=int(t[1]))
     if t[2] == 'S':          # RUN
         r['sol'], pos = vf.parse_paths(t, 3)
@@ -732,9 +825,7 @@ def region_eval(ctx, T, rng, cases, prepare, sign_of, key_of, label, pid_kind):
     for i, (c, o) in enumerate(zip(cases, outs)):
         r = parse_exe(o)
         res.append(r)
-        if not r['ok']:
-            viol(ctx, 'offset.crash-or-exception', '%s: harness answered %s' % (label, o[:300]),
-                          replay=dict(kind=pid_kind, case=c))
+        if bad_answer(ctx, r, label, o, dict(kind=pid_kind, case=c)):
             continue
         if r['err'] != 0:
             viol(ctx, 'offset.error-code', '%s: ErrorCode %d on valid input' % (label, r['err']), replay=dict(kind=pid_kind, case=c))
@@ -871,8 +962,7 @@ def locality_eval(ctx, T, cases, label, pid_kind, key_of=None):
     tog, alone = {}, {}
     for (ci, u), o in zip(owner, outs):
         r = parse_exe(o)
-        if not r['ok']:
-            viol(ctx, 'offset.crash-or-exception', '%s: harness answered %s' % (label, o[:300]), replay=dict(kind=pid_kind, case=cases[ci]))
+        if bad_answer(ctx, r, label, o, dict(kind=pid_kind, case=cases[ci])):
             r = dict(ok=False, sol=[])
         if u is None:
             tog[ci] = r
@@ -928,8 +1018,7 @@ def plan_tie(ctx, T, cases, label, pid_kind):
     parsed = [parse_exe(o) for o in outs]
     plines, glines, gidx = [], [], []
     for ci, (c, r) in enumerate(zip(cases, parsed)):
-        if not r['ok']:
-            viol(ctx, 'offset.crash-or-exception', '%s: harness answered %s' % (label, outs[ci][:300]), replay=dict(kind=pid_kind, case=c))
+        if bad_answer(ctx, r, label, outs[ci], dict(kind=pid_kind, case=c)):
             continue
         plines.append((ci, plan_line(c, r['groups'])))
         for gi, g in enumerate(c['groups']):
